@@ -5,3 +5,4 @@ import TdxProofs.Props.C17
 import TdxProofs.Props.C13
 import TdxProofs.Props.C08
 import TdxProofs.Props.C14
+import TdxProofs.Props.C19
